@@ -422,8 +422,8 @@ RULES = [
     Rule("C08.FLOW.intersection", P, r_intersection),
     Rule("C08.D3.mapping-positions", P, r_mapping_positions),
     Rule("C08.D2.closure", P, r_closure),
-    Rule("C08.TABLE.superseeded", P, r_superseeded_table),
-    Rule("C08.D1.scope", P, r_scope),
+    Rule("C08.TABLE.superseeded", P + ("C04",), r_superseeded_table),
+    Rule("C08.D1.scope", P + ("C04",), r_scope),
     Rule("C08.TABLE.true-false", P, r_truth_tables),
     Rule("C08.E.keep", P, r_keep),
     Rule("C08.local-superseed", P, r_local_superseed),
